@@ -55,3 +55,18 @@ package baseapp
 //@   keeps ms.
 //@   may_panic
 //@   ensures [noflush] mode != 2 ==> ms.cwrites == old(ms.cwrites)
+
+// C14: a store query without a height is answered at the last committed height - that height is what the multistore
+// is asked for AND what the response is labelled with; an explicit height is forwarded as it is. (q.* observe the
+// query routed to the multistore: store/types contract file.)
+//@ ghost cms.last Int
+//@ func handleQueryStore(app *BaseApp, path []string, req abci.RequestQuery) (res abci.ResponseQuery)
+//@   props C14
+//@   mode heap
+//@   may_panic
+//@   modifies everything
+//@   keeps q., cms.
+//@   ensures [once] q.calls <= old(q.calls) + 1
+//@   ensures [height] q.calls == old(q.calls) + 1 ==> q.height == ite(req.Height != 0, req.Height, cms.last) && res.Height == q.height
+//@   ensures [forwarded] q.calls == old(q.calls) + 1 ==> q.data == req.Data && q.prove == req.Prove
+//@   ensures [noproof-early] q.calls == old(q.calls) + 1 && req.Prove ==> ite(req.Height != 0, req.Height, cms.last) > 1
